@@ -109,6 +109,22 @@ def d14Trace : List Label :=
   [.set 0 1, .cEnter 0 true, .cClear 0, .rTrack 0, .rStart 0, .wBegin 0, .set 0 2, .wRun 0, .wPublish 0, .wRet 0,
    .cEnter 1 true, .cClear 1, .rTrack 1, .rStart 1, .wBegin 1, .wRet 1]
 
+/-- **An invalidation is never answered from the cache.** `invalidate()` (something the postprocessor reads besides the pages
+has changed: `facets.toml`) makes a new generation of the same pages: in every reachable state, right after it the store is
+dirty - whatever result is cached, and whatever a run that is still in flight publishes later (its snapshot belongs to an
+older generation, `no_lost_update`) - so the next request recomputes. (Marking only the cached result as stale, without a
+new generation, lets an in-flight run that read the old file install its result as current.) -/
+theorem invalidate_not_served_from_cache {post : Store → R} {ls : List Label} {s s' : St R}
+    (hr : runFrom .fixed post (init post) ls = some s) (hs : step .fixed post s .inv = some s') :
+    dirty .fixed s' = true ∧ s'.store = s.store ∧ s'.gen = s.gen + 1 := by
+  have hi := inv_reachable hr
+  simp only [step, Option.some.injEq] at hs
+  subst hs
+  refine ⟨?_, rfl, rfl⟩
+  have hle : s.cachedGen ≤ s.gen := hi.cval.1
+  simp only [dirty, bne_iff_ne, ne_eq]
+  omega
+
 /-- concrete facts about the upstream mechanism on `d14Trace` (postprocessor = identity): the second
 request, issued at generation 2 with the store quiescent, finds nothing dirty and returns the cached
 result of generation 1 — version 1 of page 0 — although the store holds version 2. -/
@@ -278,6 +294,7 @@ theorem pending_cancel_not_erased {m : Mode} {post : Store → R} {ls : List Lab
     cases l with
     | set k v => simp only [step, Option.some.injEq] at hs; subst hs; exact keep rfl rfl
     | del k => simp only [step, Option.some.injEq] at hs; subst hs; exact keep rfl rfl
+    | inv => simp only [step, Option.some.injEq] at hs; subst hs; exact keep rfl rfl
     | cEnter r isReq =>
       simp only [step] at hs
       split at hs
